@@ -59,9 +59,11 @@ package cache
 //@   assert at `matchingBugIds = append(matchingBugIds, bugId)` [counted-because-it-matches] comment.combinedId.HasPrefix(prefix)
 //@   assert at `return nil, entity.UnsetCombinedId, entity.NewErrMultipleMatch(` [ambiguity-means-several-matching-comments] len(matchingBugIds) > 1
 //@   loop 2
+//@     invariant [matches-collected-apart-from-the-candidates] !samearray(matchingBugIds, bugCandidate)
 //@     invariant [single-match-is-unique-in-its-bug] len(matchingBugIds) == 1 ==> (forall k int :: { matchingBug.Snapshot().Comments[k] } 0 <= k && k < len(matchingBug.Snapshot().Comments) && matchingBug.Snapshot().Comments[k].combinedId.HasPrefix(prefix) ==> matchingBug.Snapshot().Comments[k].combinedId == matchingCommentId)
 //@     invariant [match-is-in-bug] len(matchingBugIds) > 0 ==> matchingBug != nil && matchingCommentId.HasPrefix(prefix) && (exists k int :: { matchingBug.Snapshot().Comments[k] } 0 <= k && k < len(matchingBug.Snapshot().Comments) && matchingBug.Snapshot().Comments[k].combinedId == matchingCommentId)
 //@   loop 3
+//@     invariant [matches-collected-apart-from-the-candidates] !samearray(matchingBugIds, bugCandidate)
 //@     invariant [match-is-in-bug] len(matchingBugIds) > 0 ==> matchingBug != nil && matchingCommentId.HasPrefix(prefix) && (exists k int :: { matchingBug.Snapshot().Comments[k] } 0 <= k && k < len(matchingBug.Snapshot().Comments) && matchingBug.Snapshot().Comments[k].combinedId == matchingCommentId)
 //@     invariant [same-snapshot]   rangeslice == b.Snapshot().Comments
 //@     invariant [none-yet] len(matchingBugIds) == 0 ==> (forall j int :: { rangeslice[j] } 0 <= j && j <= rangeindex ==> !rangeslice[j].combinedId.HasPrefix(prefix))
@@ -281,7 +283,6 @@ package cache
 //@     invariant [seen-in-map]  forall id entity.Id :: { iterseen[id] } iterseen[id] ==> (id in sc.excerpts)
 //@     invariant [fresh-list]   fresh(matching)
 
-
 // The snapshot wrapper (C10, "the state the cache maintains incrementally equals a compilation from
 // scratch"): with a cached snapshot, Append performs exactly the loop body of Compile - one Apply of the
 // new operation on the cached snapshot - and without one it applies nothing (the next Compile starts from
@@ -471,7 +472,7 @@ package cache
 //@   modifies sync.rwheld
 //@   defines sync.rwheld == update(old(sync.rwheld), entityLock(recv), -1)
 //@ func CacheEntity.NeedCommit
-//@   modifies nothing
+//@   purefn
 //@ func CacheEntity.Id
 //@   purefn
 //@ func (*lruIdCache).Add
@@ -492,6 +493,9 @@ package cache
 //@   requires [not-held@locks] sc != nil && sync.rwheld[&sc.mu] == 0
 //@   ensures [lock-balanced] forall m *sync.RWMutex :: { sync.rwheld[m] } sync.rwheld[m] == old(sync.rwheld[m])
 //@   ensures [entries-not-replaced] forall k entity.Id :: { sc.cached[k] } old(k in sc.cached) && (k in sc.cached) ==> sc.cached[k] == old(sc.cached[k])
+// an entity that holds staged, uncommitted operations is never evicted: the next Resolve would read a fresh instance
+// from git and the acknowledged edits would be gone
+//@   assert at `b.Lock()` [only-an-entity-without-staged-operations-is-evicted] !b.NeedCommit()
 //@   loop 1
 //@     invariant [cache-lock-kept] sync.rwheld[&sc.mu] == -1
 //@     invariant [entries-not-replaced] forall k entity.Id :: { sc.cached[k] } old(k in sc.cached) && (k in sc.cached) ==> sc.cached[k] == old(sc.cached[k])
@@ -711,6 +715,9 @@ package cache
 //@   stable entityNotifies
 //@   modifies repoWrites, entityNotifies, opsAtLastCommit
 //@   defines [commits-what-was-appended] result == nil ==> opsAtLastCommit == bugOps
+// the entity is written with its lock held for writing: two commits of one entity must not run side by side (both
+// would write the same staged operations on top of the same head: the history forks and one side is lost)
+//@   assert at `err := e.entity.Commit` [committed-under-the-write-lock] sync.rwheld[&e.mu] == -1
 //@   opt trusted_frame
 //@   requires [not-held@locks] e != nil && sync.rwheld[&e.mu] == 0
 //@   ensures [lock-balanced] forall m *sync.RWMutex :: { sync.rwheld[m] } sync.rwheld[m] == old(sync.rwheld[m])
